@@ -514,6 +514,16 @@ Definition host_header (r : request) : option str :=
     if is_nil a then get_header s_Host (r_headers r) else Some a
   else get_header s_Host (r_headers r).
 
+(* executable form of the host condition under which a URL that was read back can be assigned again
+   (Proofs/UrlNormal.v: host_wf); the correspondence evaluates it on every accepted URL *)
+Definition host_char_b (b : byte) : bool :=
+  negb (is_delim b) && negb (unsafe b) && is_ascii b && negb (byte_eqb b cAT) && negb (byte_eqb b cRBR).
+Definition host_wf_b (h : bytes) : bool :=
+  negb (is_nil h) && forallb host_char_b h
+  && (if mem cCOLON h then negb (starts_with [cLBR] h) && check_bracketed_host h else negb (mem cLBR h))
+  && bytes_eqb (lower (fst (fst (partition cPCT h)))) (fst (fst (partition cPCT h)))
+  && label_len_ok (split cDOT h) && is_valid_host_b h.
+
 (* ---------- edit histories ---------- *)
 Inductive op :=
 | SetUrl (u : str)
